@@ -99,6 +99,9 @@ async def explore(tier, seed, m):
                 elif k < 0.8: evs.append(None)
                 elif k < 0.9: evs.append({"o": "Payload", "a": [[f["name"], sg.value_for(f["type"], 1, 0.3)]]})
                 else: evs.append({"d": [["other", {"i": "1"}]]})
+            if evs and rng.random() < 0.4:
+                import copy as _cp2
+                j_ = rng.randrange(len(evs)); evs.insert(j_, _cp2.deepcopy(evs[j_]))      # two consecutive EQUAL events are two events
             sources[f["name"]] = evs
         log = []
         # every fourth schema: the custom scalar's input coercion is NOT idempotent (it wraps strings): coercing the caller's
